@@ -103,9 +103,9 @@ M = [
   """                      /\\ intr' = [intr EXCEPT ![f] = "OUT"]""",
   """                      /\\ intr' = intr""",
   "PROOF", "ServerIntr_proofs.tla", r"obligations failed"),
- ("delivered_request_queued_in_front", "HttpConn.tla",
-  "              !.parsed = Append(@, Delivered(c.pending, body, hasBody, c.files))]",
-  "              !.parsed = <<Delivered(c.pending, body, hasBody, c.files)>> \\o @]",
+ ("pop_takes_the_newest", "HttpConn.tla",
+  "PopParsed(c) == [c EXCEPT !.parsed = Tail(@)]",
+  "PopParsed(c) == [c EXCEPT !.parsed = SubSeq(@, 1, Len(@) - 1)]",
   "MC_Conn.tla", "MC_Conn_files.cfg", r"ParsedQueueOK"),
  ("abs_sweep_ignores_inflight", "ServerAbs.tla",
   'Sweep(R) == /\\ R \\subseteq {f \\in FD : st[f] = "closed" /\\ infl[f] = 0}',
